@@ -223,7 +223,7 @@ func c14(c *fw.Ctx) {
 				})
 			}
 			// margins 0..20 and sizes up to 8N
-			nsamp := c.Pick(300, 3000)
+			nsamp := c.Pick(1200, 30000)
 			for i := 0; i < nsamp; i++ {
 				i := i
 				c.Run(fmt.Sprintf("sample/%s/%d/%d", ws.Name, k, i), func(r *fw.Rec) {
